@@ -332,8 +332,17 @@ def check_valid_edit(ctx, case, wdir):
                       % (name, 'returned' if o1[0] == 'ok' else 'raised ' + str(o1[1]), 'returned' if o2[0] == 'ok' else 'raised ' + str(o2[1]),
                          [(k, repr(v)[:30]) for k, v in edits]), case)
         return
+    if o1[0] == 'convergence':
+        ctx.count('edits_ending_in_the_convergence_error_on_both_routes')
+        return
     if o1[0] != 'ok':
-        ctx.count('edits_rejected_by_both_routes')
+        if any(v is None for _, v in edits):
+            # an option switched off may be one the variant cannot do without: rejected by both routes alike
+            ctx.count('edits_rejected_by_both_routes')
+            return
+        # every value in this table is a documented, valid value for its option: the configured call has to run
+        ctx.violation('exception:valid:%s' % o1[1], 'valid option edit %s on %s raised %s (through both **config and get_func())'
+                      % ([(k, repr(v)[:30]) for k, v in edits], name, o1[1]), case)
         return
     backs = yaml_roundtrips(ctx, S, cfg, name, case, wdir, 'v')
     if backs is None:
